@@ -143,7 +143,7 @@ Ltac got := match goal with H : Some _ = Some ?s' |- _ => inversion H; subst s';
 
 Ltac thr_free :=
   let i := fresh "i" in let H := fresh "H" in
-  intro i; split; [discriminate | intro H; apply Hmt in H; discriminate].
+  intro i; split; [discriminate | intro H; match goal with Hx : forall k, _ = Some (OThread k) <-> _ |- _ => apply Hx in H end; discriminate].
 Ltac easy_fields :=
   try assumption; try discriminate; try (split; discriminate); try (split; reflexivity); try reflexivity; try thr_free.
 
@@ -221,7 +221,7 @@ Proof.
   - got. constructor; fields; easy_fields.
   - got. constructor; fields; easy_fields. intros _ i [].
   - got. constructor; fields; easy_fields.
-    rewrite app_length in *. cbn [length] in *. lia.
+    cbn [length] in *. rewrite app_length. lia.
 Qed.
 
 Lemma inv_reacquire : forall s s', Inv s -> step s LReacquire = Some s' -> Inv s'.
@@ -246,3 +246,412 @@ Lemma inv_spurious : forall s s', Inv s -> step s LSpurious = Some s' -> Inv s'.
 Proof.
   start. destruct p; try discriminate. got. constructor; fields; easy_fields.
 Qed.
+
+(* ---- completer steps *)
+
+Ltac thr_start c0 :=
+  start;
+  match goal with
+  | Hx : context [thread_is ?s ?i c0] |- _ =>
+      destruct (thread_is s i c0) eqn:Hti; [|discriminate];
+      apply thread_is_spec in Hti; cbn [threads] in Hti
+  end.
+
+Ltac by_cases j i :=
+  destruct (Nat.eqb j i) eqn:E; [apply Nat.eqb_eq in E; subst j | apply Nat.eqb_neq in E].
+
+Lemma inv_thrlock : forall i s s', Inv s -> step s (LThrLock i) = Some s' -> Inv s'.
+Proof.
+  intro i. thr_start CIdle. cbn [andb] in Hst. destruct m; fields; try discriminate. got.
+  assert (Hni : ~ In i (q ++ c)) by (rewrite Hpu, Hti; discriminate).
+  constructor; fields.
+  - split; [discriminate|]. intro H. apply Hme in H. discriminate.
+  - intro j. rewrite (class_upd holds_lock t i CIdle CHasLock j Hti). by_cases j i.
+    + split; reflexivity.
+    + split; [intro H; inversion H; congruence | intro H; apply Hmt in H; discriminate].
+  - exact Hnd.
+  - intro j. rewrite (class_upd has_pushed t i CIdle CHasLock j Hti). by_cases j i.
+    + split; [intro H; now elim Hni | discriminate].
+    + apply Hpu.
+  - now rewrite upd_length.
+  - intros Hw j Hj. rewrite (class_upd not_notified t i CIdle CHasLock j Hti). by_cases j i.
+    + elim Hni. apply in_or_app. now left.
+    + now apply Hwt.
+  - exact Hout.
+  - exact Hpk.
+  - exact Hdn.
+Qed.
+
+Lemma inv_thrpush : forall i s s', Inv s -> step s (LThrPush i) = Some s' -> Inv s'.
+Proof.
+  intro i. thr_start CHasLock. got.
+  assert (Hni : ~ In i (q ++ c)) by (rewrite Hpu, Hti; discriminate).
+  assert (Hm : m = Some (OThread i)) by (apply Hmt; rewrite Hti; reflexivity).
+  constructor; fields.
+  - exact Hme.
+  - intro j. rewrite (class_upd holds_lock t i CHasLock CPushed j Hti). by_cases j i.
+    + split; [reflexivity | intros _; exact Hm].
+    + apply Hmt.
+  - constructor; assumption.
+  - intro j. rewrite (class_upd has_pushed t i CHasLock CPushed j Hti). by_cases j i.
+    + split; [reflexivity | intros _; now left].
+    + split; [intros [H|H]; [congruence | now apply Hpu] | intro H; right; now apply Hpu].
+  - now rewrite upd_length.
+  - intros Hw j Hj. rewrite (class_upd not_notified t i CHasLock CPushed j Hti). by_cases j i.
+    + reflexivity.
+    + destruct Hj as [Hj|Hj]; [congruence | now apply Hwt].
+  - exact Hout.
+  - exact Hpk.
+  - exact Hdn.
+Qed.
+
+Lemma inv_throunlock : forall i s s', Inv s -> step s (LThrUnlock i) = Some s' -> Inv s'.
+Proof.
+  intro i. thr_start CPushed. got.
+  assert (Hin : In i (q ++ c)) by (apply Hpu; rewrite Hti; reflexivity).
+  assert (Hm : m = Some (OThread i)) by (apply Hmt; rewrite Hti; reflexivity). subst m.
+  constructor; fields.
+  - split; [discriminate|]. intro H. apply Hme in H. discriminate.
+  - intro j. rewrite (class_upd holds_lock t i CPushed CReleased j Hti). by_cases j i.
+    + split; discriminate.
+    + split; [discriminate | intro H; apply Hmt in H; inversion H; congruence].
+  - exact Hnd.
+  - intro j. rewrite (class_upd has_pushed t i CPushed CReleased j Hti). by_cases j i.
+    + split; [reflexivity | intros _; exact Hin].
+    + apply Hpu.
+  - now rewrite upd_length.
+  - intros Hw j Hj. rewrite (class_upd not_notified t i CPushed CReleased j Hti). by_cases j i.
+    + reflexivity.
+    + now apply Hwt.
+  - exact Hout.
+  - exact Hpk.
+  - exact Hdn.
+Qed.
+
+Lemma inv_thrnotify : forall i s s', Inv s -> step s (LThrNotify i) = Some s' -> Inv s'.
+Proof.
+  intro i. thr_start CReleased. got.
+  assert (Hin : In i (q ++ c)) by (apply Hpu; rewrite Hti; reflexivity).
+  constructor; fields.
+  - destruct p; exact Hme.
+  - intro j. rewrite (class_upd holds_lock t i CReleased CDone j Hti). by_cases j i.
+    + split; [intro H; apply Hmt in H; rewrite Hti in H; discriminate | discriminate].
+    + apply Hmt.
+  - exact Hnd.
+  - intro j. rewrite (class_upd has_pushed t i CReleased CDone j Hti). by_cases j i.
+    + split; [reflexivity | intros _; exact Hin].
+    + apply Hpu.
+  - now rewrite upd_length.
+  - destruct p; discriminate.
+  - destruct p; cbn [wake in_wait_block]; try discriminate. exact Hout.
+  - destruct p; cbn [wake]; try discriminate. exact Hpk.
+  - destruct p; cbn [wake]; try discriminate. exact Hdn.
+Qed.
+
+Theorem inv_step : forall s l s', Inv s -> step s l = Some s' -> Inv s'.
+Proof.
+  intros s l s' HI Hst. destruct l.
+  - now apply (inv_spawn s).
+  - now apply (inv_polllock s).
+  - now apply (inv_poll s).
+  - now apply (inv_continue s).
+  - now apply (inv_exit s).
+  - now apply (inv_cyclecontinue s).
+  - now apply (inv_waitlock s).
+  - now apply (inv_peek_step s).
+  - now apply (inv_check s).
+  - now apply (inv_reacquire s).
+  - now apply (inv_waitunlock s).
+  - now apply (inv_cancel s).
+  - now apply (inv_spurious s).
+  - now apply (inv_thrlock i s).
+  - now apply (inv_thrpush i s).
+  - now apply (inv_throunlock i s).
+  - now apply (inv_thrnotify i s).
+Qed.
+
+Lemma inv_steps : forall ls s s', Inv s -> steps s ls = Some s' -> Inv s'.
+Proof.
+  induction ls as [|l t IH]; intros s s' HI Hst.
+  - unfold steps in Hst. cbn [steps_gen] in Hst. inversion Hst; now subst.
+  - unfold steps in Hst. cbn [steps_gen] in Hst.
+    destruct (step_gen false s l) as [s1|] eqn:H1; [|discriminate].
+    apply (IH s1 s'); [now apply (inv_step s l s1)|exact Hst].
+Qed.
+
+Theorem reachable_inv : forall s, reachable s -> Inv s.
+Proof. intros s [ls Hls]. apply (inv_steps ls init s inv_init Hls). Qed.
+
+(* ------------------------------------------------------------------ no lost wake-up *)
+
+(* The invariant the proof needs: while the engine is blocked in wait, every element of the queue was pushed by a thread that
+   has not yet called notify_one - so a wake-up for it is still to come. *)
+Theorem no_lost_wakeup : forall s, reachable s ->
+  forall m, pc s = EWaiting m ->
+  forall i, In i (queue s) ->
+  nth_error (threads s) i = Some CPushed \/ nth_error (threads s) i = Some CReleased.
+Proof.
+  intros s Hr m Hpc i Hi. pose proof (inv_wait s (reachable_inv s Hr)) as Hw.
+  rewrite Hpc in Hw. specialize (Hw eq_refl i Hi).
+  destruct (nth_error (threads s) i) as [[]|]; try discriminate; [now left | now right].
+Qed.
+
+(* never: engine asleep, queue non-empty, and no notification still to come *)
+Corollary never_asleep_with_work : forall s, reachable s ->
+  ~ (is_waiting (pc s) = true /\ queue s <> [] /\
+     forall i, not_notified (nth_error (threads s) i) = false).
+Proof.
+  intros s Hr (Hw & Hq & Hall). destruct (pc s) as [| | | | |m| | | |] eqn:Hpc; try discriminate.
+  destruct (queue s) as [|i q] eqn:Eq; [now elim Hq|].
+  destruct (no_lost_wakeup s Hr m Hpc i) as [H|H]; [rewrite Eq; now left | |];
+    specialize (Hall i); rewrite H in Hall; discriminate.
+Qed.
+
+Corollary never_asleep_all_done : forall s, reachable s ->
+  ~ (is_waiting (pc s) = true /\ queue s <> [] /\ all_done s = true).
+Proof.
+  intros s Hr (Hw & Hq & Hall). apply (never_asleep_with_work s Hr). split; [exact Hw|]. split; [exact Hq|].
+  intro i. destruct (nth_error (threads s) i) as [c|] eqn:Hi; [|reflexivity].
+  unfold all_done in Hall. rewrite forallb_forall in Hall.
+  specialize (Hall c (nth_error_In _ _ Hi)). apply cstate_eqb_eq in Hall. now subst.
+Qed.
+
+Lemma exists_fresh : forall (l : list nat) n, length l < n -> exists j, j < n /\ ~ In j l.
+Proof.
+  intros l n Hlt.
+  destruct (find (fun j => negb (existsb (Nat.eqb j) l)) (seq 0 n)) as [j|] eqn:F.
+  - apply find_some in F. destruct F as [Hin Hneg]. apply in_seq in Hin. exists j. split; [lia|].
+    intro Hj. apply negb_true_iff in Hneg.
+    assert (Hex : existsb (Nat.eqb j) l = true) by (apply existsb_exists; exists j; split; [exact Hj | apply Nat.eqb_refl]).
+    rewrite Hex in Hneg. discriminate.
+  - assert (Hincl : incl (seq 0 n) l).
+    { intros j Hj. pose proof (find_none _ _ F j Hj) as Hn. cbn beta in Hn. apply negb_false_iff in Hn.
+      apply existsb_exists in Hn. destruct Hn as (k & Hk & Ek). apply Nat.eqb_eq in Ek. now subst. }
+    pose proof (NoDup_incl_length (seq_NoDup n 0) Hincl) as Hlen. rewrite seq_length in Hlen. lia.
+Qed.
+
+(* the engine only ever sleeps while some completer still has its notify_one ahead of it *)
+Theorem waiting_has_waker : forall s, reachable s -> is_waiting (pc s) = true ->
+  exists j c, nth_error (threads s) j = Some c /\ c <> CDone.
+Proof.
+  intros s Hr Hw. pose proof (reachable_inv s Hr) as HI.
+  destruct (queue s) as [|i q] eqn:Eq.
+  - assert (Ho : outstanding s <> 0) by (apply (inv_out s HI); destruct (pc s); try discriminate; reflexivity).
+    pose proof (inv_count s HI) as Hc.
+    destruct (exists_fresh (consumed s) (length (threads s))) as (j & Hj & Hnj); [lia|].
+    destruct (nth_error (threads s) j) as [c|] eqn:Hn; [|apply nth_error_None in Hn; lia].
+    exists j, c. split; [exact Hn|]. intro E; subst c.
+    apply Hnj. pose proof (proj2 (inv_pushed s HI j)) as Hp. rewrite Hn, Eq in Hp. apply (Hp eq_refl).
+  - destruct (pc s) as [| | | | |m| | | |] eqn:Hpc; try discriminate.
+    destruct (no_lost_wakeup s Hr m Hpc i) as [H|H]; [rewrite Eq; now left | |].
+    + exists i, CPushed. split; [exact H | discriminate].
+    + exists i, CReleased. split; [exact H | discriminate].
+Qed.
+
+(* ------------------------------------------------------------------ the broken variant loses a wake-up *)
+
+Definition broken_witness : list label :=
+  [LSpawn; LPollLock; LPoll; LContinue; LPollLock; LPoll; LPeek; LThrLock 0; LThrPush 0; LThrUnlock 0; LThrNotify 0; LWaitLock; LCheck].
+
+Theorem broken_variant_loses_wakeup :
+  exists s, reachable_broken s /\ pc s = EWaiting Main /\ queue s <> [] /\ all_done s = true /\ outstanding s = 1.
+Proof.
+  exists (mkState (EWaiting Main) None [0] [CDone] 1 []).
+  split; [exists broken_witness; vm_compute; reflexivity|].
+  split; [reflexivity|]. split; [discriminate|]. split; reflexivity.
+Qed.
+
+(* the same label sequence is not a behaviour of the code as it is: LPeek is not a step of the real engine *)
+Lemma broken_witness_rejected : steps init broken_witness = None.
+Proof. vm_compute. reflexivity. Qed.
+
+(* ------------------------------------------------------------------ progress *)
+
+Definition Goal (i : nat) (s : state) : Prop :=
+  exists ls s', forallb internal ls = true /\ steps s ls = Some s' /\ In i (consumed s').
+
+Lemma goal_now : forall i s, In i (consumed s) -> Goal i s.
+Proof. intros i s H. exists [], s. split; [reflexivity|]. split; [reflexivity|exact H]. Qed.
+
+Lemma goal_step : forall i s l s', internal l = true -> step s l = Some s' -> Goal i s' -> Goal i s.
+Proof.
+  intros i s l s' Hl Hst (ls & s2 & Hi & Hs & Hin). exists (l :: ls), s2.
+  split; [cbn [forallb]; now rewrite Hl, Hi|]. split; [|exact Hin].
+  unfold steps. cbn [steps_gen]. unfold step in Hst. rewrite Hst. exact Hs.
+Qed.
+
+Lemma goal_run : forall i q dw t o c, In i q -> Goal i (mkState (ERun dw) None q t o c).
+Proof.
+  intros i q. induction q as [|j q' IH]; intros dw t o c Hin; [now elim Hin|].
+  apply (goal_step i _ LPollLock (mkState (EPollLocked dw) (Some OEngine) (j :: q') t o c)); [reflexivity|reflexivity|].
+  apply (goal_step i _ LPoll (mkState (ERun true) None q' t (o - 1) (j :: c))); [reflexivity|reflexivity|].
+  destruct Hin as [E|Hin].
+  - subst j. apply goal_now. now left.
+  - now apply IH.
+Qed.
+
+Lemma goal_drain : forall i q t o c, In i q -> length q + length c <= length t -> o + length c = length t ->
+  Goal i (mkState EDrain None q t o c).
+Proof.
+  intros i q t o c Hin Hsb Hct. destruct q as [|j q']; [now elim Hin|]. cbn [length] in Hsb.
+  destruct o as [|o']; [lia|].
+  apply (goal_step i _ LWaitLock (mkState (EWaitLocked Drain) (Some OEngine) (j :: q') t (S o') c)); [reflexivity|reflexivity|].
+  apply (goal_step i _ LCheck (mkState (EWaitExit Drain) (Some OEngine) [] t (S o' - length (j :: q')) ((j :: q') ++ c)));
+    [reflexivity|reflexivity|].
+  apply goal_now. cbn [consumed]. apply in_or_app. now left.
+Qed.
+
+(* the engine running alone takes a queued element out, provided its completer is Done (so the engine is not asleep) *)
+Lemma goal_engine_alone : forall i s, Inv s -> mutex s = None -> In i (queue s) ->
+  nth_error (threads s) i = Some CDone -> Goal i s.
+Proof.
+  intros i s HI Hm Hin Hdone. pose proof (inv_seen_bound s HI) as Hsb.
+  destruct HI as [Hme Hmt Hnd Hpu Hct Hwt Hout Hpk Hdn].
+  destruct s as [p m q t o c]. fields. subst m.
+  assert (Hq : length q <> 0) by (destruct q; [now elim Hin | discriminate]).
+  destruct p as [dw|dw|dw| |md|md|md|md| |]; fields.
+  - now apply goal_run.
+  - assert (E : @None owner = Some OEngine) by (apply Hme; reflexivity). discriminate.
+  - destruct dw.
+    + apply (goal_step i _ LContinue (mkState (ERun false) None q t o c)); [reflexivity|reflexivity|]. now apply goal_run.
+    + destruct o as [|o']; [lia|]. destruct q as [|j q']; [now elim Hin|].
+      apply (goal_step i _ LWaitLock (mkState (EWaitLocked Main) (Some OEngine) (j :: q') t (S o') c)); [reflexivity|reflexivity|].
+      apply (goal_step i _ LCheck (mkState (EWaitExit Main) (Some OEngine) (j :: q') t (S o') c)); [reflexivity|reflexivity|].
+      apply (goal_step i _ LWaitUnlock (mkState (ERun false) None (j :: q') t (S o') c)); [reflexivity|reflexivity|].
+      now apply goal_run.
+  - now elim Hpk.
+  - assert (E : @None owner = Some OEngine) by (apply Hme; reflexivity). discriminate.
+  - specialize (Hwt eq_refl i Hin). rewrite Hdone in Hwt. discriminate.
+  - apply (goal_step i _ LReacquire (mkState (EWaitExit md) (Some OEngine) q t o c)); [reflexivity|reflexivity|].
+    destruct md.
+    + apply (goal_step i _ LWaitUnlock (mkState (ERun false) None q t o c)); [reflexivity|reflexivity|]. now apply goal_run.
+    + apply (goal_step i _ LWaitUnlock (mkState EDrain None q t o c)); [reflexivity|reflexivity|]. now apply goal_drain.
+  - assert (E : @None owner = Some OEngine) by (apply Hme; reflexivity). discriminate.
+  - now apply goal_drain.
+  - specialize (Hdn eq_refl). lia.
+Qed.
+
+(* explicit forms of the completer steps *)
+Lemma step_thrlock : forall s j, nth_error (threads s) j = Some CIdle -> mutex s = None ->
+  step s (LThrLock j) = Some (mkState (pc s) (Some (OThread j)) (queue s) (upd j CHasLock (threads s)) (outstanding s) (consumed s)).
+Proof.
+  intros s j Hj Hm. unfold step, step_gen. rewrite (proj2 (thread_is_spec s j CIdle) Hj), Hm. reflexivity.
+Qed.
+Lemma step_thrpush : forall s j, nth_error (threads s) j = Some CHasLock ->
+  step s (LThrPush j) = Some (mkState (pc s) (mutex s) (j :: queue s) (upd j CPushed (threads s)) (outstanding s) (consumed s)).
+Proof.
+  intros s j Hj. unfold step, step_gen. rewrite (proj2 (thread_is_spec s j CHasLock) Hj). reflexivity.
+Qed.
+Lemma step_thrunlock : forall s j, nth_error (threads s) j = Some CPushed ->
+  step s (LThrUnlock j) = Some (mkState (pc s) None (queue s) (upd j CReleased (threads s)) (outstanding s) (consumed s)).
+Proof.
+  intros s j Hj. unfold step, step_gen. rewrite (proj2 (thread_is_spec s j CPushed) Hj). reflexivity.
+Qed.
+Lemma step_thrnotify : forall s j, nth_error (threads s) j = Some CReleased ->
+  step s (LThrNotify j) = Some (mkState (wake (pc s)) (mutex s) (queue s) (upd j CDone (threads s)) (outstanding s) (consumed s)).
+Proof.
+  intros s j Hj. unfold step, step_gen. rewrite (proj2 (thread_is_spec s j CReleased) Hj). reflexivity.
+Qed.
+
+Lemma engine_holds_wake : forall p, engine_holds (wake p) = engine_holds p.
+Proof. destruct p; reflexivity. Qed.
+
+(* phase A: the engine leaves its critical section *)
+Lemma release_engine : forall i s, Inv s ->
+  (forall s', Inv s' -> engine_holds (pc s') = false -> length (threads s') = length (threads s) -> Goal i s') ->
+  Goal i s.
+Proof.
+  intros i s HI K.
+  destruct (engine_holds (pc s)) eqn:Hh; [|now apply K].
+  assert (Hm : mutex s = Some OEngine) by (now apply (inv_mx_eng s HI)).
+  assert (Hunlock : forall s1 md, Inv s1 -> pc s1 = EWaitExit md -> length (threads s1) = length (threads s) -> Goal i s1).
+  { intros s1 md HI1 Hpc1 Hlen1.
+    assert (Hs : exists s2, step s1 LWaitUnlock = Some s2 /\ engine_holds (pc s2) = false /\ threads s2 = threads s1).
+    { unfold step, step_gen. rewrite Hpc1. destruct md; eexists; (split; [reflexivity|]); split; reflexivity. }
+    destruct Hs as (s2 & Hst & Hh2 & Ht2).
+    apply (goal_step i s1 LWaitUnlock s2); [reflexivity|exact Hst|].
+    apply K; [now apply (inv_step s1 LWaitUnlock s2)|exact Hh2|now rewrite Ht2]. }
+  destruct (pc s) as [dw|dw|dw| |md|md|md|md| |] eqn:Hpc; try discriminate.
+  - assert (Hs : exists s2, step s LPoll = Some s2 /\ engine_holds (pc s2) = false /\ threads s2 = threads s).
+    { unfold step, step_gen. rewrite Hpc. destruct (queue s); eexists; (split; [reflexivity|]); split; reflexivity. }
+    destruct Hs as (s2 & Hst & Hh2 & Ht2).
+    apply (goal_step i s LPoll s2); [reflexivity|exact Hst|].
+    apply K; [now apply (inv_step s LPoll s2)|exact Hh2|now rewrite Ht2].
+  - assert (Hs : exists s2, step s LCheck = Some s2 /\ threads s2 = threads s /\
+                            (engine_holds (pc s2) = false \/ exists md', pc s2 = EWaitExit md')).
+    { unfold step, step_gen. rewrite Hpc. cbn match.
+      destruct md; destruct (queue s); eexists; (split; [reflexivity|]); (split; [reflexivity|]);
+        solve [left; reflexivity | right; eexists; reflexivity]. }
+    destruct Hs as (s2 & Hst & Ht2 & Hcase).
+    apply (goal_step i s LCheck s2); [reflexivity|exact Hst|].
+    pose proof (inv_step s LCheck s2 HI Hst) as HI2.
+    destruct Hcase as [Hh2|(md' & Hpc2)].
+    + apply K; [exact HI2|exact Hh2|now rewrite Ht2].
+    + apply (Hunlock s2 md' HI2 Hpc2). now rewrite Ht2.
+  - now apply (Hunlock s md HI Hpc).
+Qed.
+
+(* phase B: every completer runs to the end (the engine holds no lock, so each of them can take the mutex in turn) *)
+Lemma finish_threads : forall i n s, work (threads s) <= n -> Inv s -> engine_holds (pc s) = false ->
+  (forall s', Inv s' -> engine_holds (pc s') = false -> work (threads s') = 0 ->
+              length (threads s') = length (threads s) -> Goal i s') ->
+  Goal i s.
+Proof.
+  intros i n. induction n as [|n IH]; intros s Hw HI Hh K.
+  - apply K; [exact HI|exact Hh|lia|reflexivity].
+  - destruct (Nat.eq_dec (work (threads s)) 0) as [Hz|Hnz]; [apply K; [exact HI|exact Hh|exact Hz|reflexivity]|].
+    (* one completer step that decreases the work *)
+    assert (Hs : exists l s1, internal l = true /\ step s l = Some s1 /\ engine_holds (pc s1) = false /\
+                              work (threads s1) < work (threads s) /\ length (threads s1) = length (threads s)).
+    { destruct (mutex s) as [[|j]|] eqn:Hm.
+      - apply (inv_mx_eng s HI) in Hm. rewrite Hm in Hh. discriminate.
+      - pose proof (proj1 (inv_mx_thr s HI j) Hm) as Hl.
+        destruct (nth_error (threads s) j) as [[]|] eqn:Hj; try discriminate.
+        + exists (LThrPush j). eexists. split; [reflexivity|]. split; [apply (step_thrpush s j Hj)|].
+          cbn [pc threads]. split; [exact Hh|]. split; [apply (work_upd_lt _ _ _ _ Hj); cbn; lia | apply upd_length].
+        + exists (LThrUnlock j). eexists. split; [reflexivity|]. split; [apply (step_thrunlock s j Hj)|].
+          cbn [pc threads]. split; [exact Hh|]. split; [apply (work_upd_lt _ _ _ _ Hj); cbn; lia | apply upd_length].
+      - destruct (work_pos_exists (threads s) Hnz) as (j & a & Hj & Ha).
+        destruct a.
+        + exists (LThrLock j). eexists. split; [reflexivity|]. split; [apply (step_thrlock s j Hj Hm)|].
+          cbn [pc threads]. split; [exact Hh|]. split; [apply (work_upd_lt _ _ _ _ Hj); cbn; lia | apply upd_length].
+        + pose proof (proj2 (inv_mx_thr s HI j)) as Hx. rewrite Hj, Hm in Hx. specialize (Hx eq_refl). discriminate.
+        + pose proof (proj2 (inv_mx_thr s HI j)) as Hx. rewrite Hj, Hm in Hx. specialize (Hx eq_refl). discriminate.
+        + exists (LThrNotify j). eexists. split; [reflexivity|]. split; [apply (step_thrnotify s j Hj)|].
+          cbn [pc threads]. split; [now rewrite engine_holds_wake|].
+          split; [apply (work_upd_lt _ _ _ _ Hj); cbn; lia | apply upd_length].
+        + now elim Ha. }
+    destruct Hs as (l & s1 & Hil & Hst & Hh1 & Hw1 & Hl1).
+    apply (goal_step i s l s1 Hil Hst).
+    apply IH; [lia|now apply (inv_step s l s1)|exact Hh1|].
+    intros s' HI' Hh' Hw' Hl'. apply K; [exact HI'|exact Hh'|exact Hw'|congruence].
+Qed.
+
+(* No deadlock in the handshake: from ANY reachable state, every completion that has been started (thread i exists) is
+   taken out of the queue by the engine after finitely many steps that the engine and the completers take on their own -
+   without spurious wake-ups, without new tasks, without cancellation. *)
+Theorem progress : forall s i, reachable s -> i < length (threads s) ->
+  exists ls s', forallb internal ls = true /\ steps s ls = Some s' /\ In i (consumed s').
+Proof.
+  intros s i Hr Hi. change (Goal i s). pose proof (reachable_inv s Hr) as HI.
+  apply (release_engine i s HI). intros s1 HI1 Hh1 Hl1.
+  apply (finish_threads i (work (threads s1)) s1 (le_n _) HI1 Hh1). intros s2 HI2 Hh2 Hw2 Hl2.
+  assert (Hi2 : i < length (threads s2)) by lia.
+  destruct (nth_error (threads s2) i) as [a|] eqn:Ha; [|apply nth_error_None in Ha; lia].
+  assert (a = CDone) by (apply (work_zero_all_done _ Hw2 i a Ha)). subst a.
+  assert (Hin : In i (queue s2 ++ consumed s2)) by (apply (inv_pushed s2 HI2); rewrite Ha; reflexivity).
+  apply in_app_or in Hin. destruct Hin as [Hq|Hc]; [|now apply goal_now].
+  apply (goal_engine_alone i s2 HI2); [|exact Hq|exact Ha].
+  destruct (mutex s2) as [[|j]|] eqn:Hm; [| |reflexivity].
+  - apply (inv_mx_eng s2 HI2) in Hm. rewrite Hm in Hh2. discriminate.
+  - pose proof (proj1 (inv_mx_thr s2 HI2 j) Hm) as Hl.
+    destruct (nth_error (threads s2) j) as [b|] eqn:Hb; [|discriminate].
+    rewrite (work_zero_all_done _ Hw2 j b Hb) in Hl. discriminate.
+Qed.
+
+(* non-vacuity: a reachable state with the engine asleep, one completer between push and notify, one not started *)
+Definition demo_labels : list label :=
+  [LSpawn; LSpawn; LPollLock; LPoll; LContinue; LPollLock; LPoll; LWaitLock; LCheck; LThrLock 1; LThrPush 1; LThrUnlock 1].
+Example demo_reachable :
+  reachable (mkState (EWaiting Main) None [1] [CIdle; CReleased] 2 []).
+Proof. exists demo_labels. vm_compute. reflexivity. Qed.
